@@ -268,8 +268,9 @@ Fixpoint del_okb (log : list event) : bool :=
   end.
 
 (* ---- a concrete allocator for the correspondence runs (same policy as harness/pool_drv.cc):
-   per call the case file says F(ail), N(ew address) or R(euse the most recently deleted
-   address that is not outstanding, else new).  Addresses are ordinals 1, 2, ... *)
+   per call the case file says F(ail), N(ew address) or R(euse the largest address that was
+   deleted before and is not outstanding, else new; independent of the order in which one
+   destructor deletes its blocks).  Addresses are ordinals 1, 2, ... *)
 Inductive choice := CFail | CNew | CReuse.
 Fixpoint max_ptr (log : list event) : N :=
   match log with
@@ -280,7 +281,10 @@ Fixpoint max_ptr (log : list event) : N :=
 Fixpoint find_reuse (live : list ptr) (l : list event) : option ptr :=
   match l with
   | [] => None
-  | EvDelete _ p :: r => if negb (p =? 0) && negb (memN p live) then Some p else find_reuse live r
+  | EvDelete _ p :: r =>
+      let rest := find_reuse live r in
+      if negb (p =? 0) && negb (memN p live)
+      then Some (match rest with Some q => N.max p q | None => p end) else rest
   | _ :: r => find_reuse live r
   end.
 Definition resolve (log : list event) (c : choice) : option ptr :=
